@@ -582,6 +582,20 @@ pub fn run_scenario_stop(cfg: &NetCfg, scripts: &Value, seed: u64, stop: &str) -
         }
         let mut rt = Builder::seeded(seed).quiet().max_time(limit).build(sim.freeze());
         inject(&mut rt);
+        if seed % 3 == 2 {
+            // the other spelling of run(): start, advance tick by tick (paused at every tick boundary), finish; the last
+            // boundary is the time limit, so exactly the same events are due
+            rt.start();
+            let mut seen = 0;
+            for t in 0..=cfg.max_t {
+                let until = Duration::from_nanos(cfg.tick_ns) * t as u32 + Duration::from_nanos(cfg.tick_ns / 2);
+                rt.dispatch_events_until(SimTime::from_duration(until));
+                let n = rt.num_events_dispatched();
+                assert!(n >= seen && rt.sim_time() <= SimTime::from_duration(until), "stepping went backwards or past its bound");
+                seen = n;
+            }
+            return Some(rt.finish());
+        }
         Some(rt.run())
     }));
     let mut out = Outcome { gates_alive: 0, channels_alive: 0, log: Vec::new(), err: BTreeSet::new(), tend: -1, result_ok: false, live_after_drop: [0; 3], dropped_twice: 0, panicked: false, dead: Default::default(), txlog: Vec::new() };
